@@ -102,3 +102,29 @@ func (t *T) IterPoolProper() func() []byte {
 		return buf
 	}
 }
+
+// labelCache is a process-wide memo table initialised by the package
+// initialiser (which no read API reaches): a read that fills it is a write to
+// memory shared by all readers.
+var labelCache = make(map[uint64][]string)
+
+// GetGlobalMemo must be flagged: unsynchronised update of a package-level map.
+func (t *T) GetGlobalMemo(key string) []string {
+	k := uint64(len(key))
+	v, ok := labelCache[k]
+	if !ok {
+		v = []string{key}
+		labelCache[k] = v
+	}
+	return v
+}
+
+var smallTable = [4]int32{1, 2, 3, 4}
+
+// GetGlobalRead must not be flagged: package-level data is only read.
+func (t *T) GetGlobalRead(key string) int32 {
+	if vs, ok := labelCache[uint64(len(key))]; ok {
+		return int32(len(vs))
+	}
+	return smallTable[len(key)&3]
+}
